@@ -39,6 +39,10 @@ def extras(rng, b, depth=0):
         if k in props and rng.random() < .12 and not any(len(it) > 1 and it[1] == k for it in b.items):
             v = rng.choice(["SELECT a\r\nFROM t", "first\u2028second", "nel\x85here", "page\x0cbreak", "fs\x1cgs", "vt\x0btab", "a\nb", "cr\rlf"])
             b.items.append(("attr", k, v, [(v, "qstr")], "string"))
+    # list expressions: stored exactly as written (numbers with leading / trailing zeros or a sign, booleans, quoted items)
+    if "expression" in props and rng.random() < .3 and not any(len(it) > 1 and it[1] == "expression" for it in b.items):
+        src = rng.choice(["{70,960,00,17,13940}", "{01234,02139}", "{1.50,2.00}", "{+5,-3}", "{TRUE,false}", "{a,b c,d}", "{10,20}", "{1e3,.5}"])
+        b.items.append(("attr", "expression", src, [(src, "raw")], "expression"))
     if "name" in props and rng.random() < .25:
         body = rng.choice(['layer \\"a\\"', 'x \\"', "it is \\'b\\'", 'The \\"Title\\"'])
         q = "'" if "\\'" in body else '"'
